@@ -629,6 +629,16 @@ package shaping
 //@   mode int
 //@   requires [run-in-text] 0 <= text.RunStart && text.RunEnd <= len(text.Text)
 //@   ensures [empty-run-kept] implies(text.RunStart >= text.RunEnd, len(seg.output) == old(len(seg.output))+1 && seg.output[len(seg.output)-1].RunStart == text.RunStart && seg.output[len(seg.output)-1].RunEnd == text.RunEnd)
+//   ghost token: bidiRuns(runs) is DEFINED as "runs is what splitByBidi left in seg.output" (not proved, handed to callers)
+//@   ensures [ghost-bidi-runs] bidiRuns(seg.output)
+//@   modifies unspecified
+//
+// Split: the pipeline always starts from the runs of the bidi pass - whatever the paragraph (no shortcut may bypass
+// the UAX #9 analysis, explicit embeddings/overrides included) - and these are the runs the script pass refines.
+//@ opaque bidiRuns(runs []Input) bool
+//@ func Segmenter.Split C08 C07
+//@   mode int
+//@   assert_at call splitByScript#1 : [itemization-starts-from-bidi-runs] bidiRuns(seg.input)
 //@   modifies unspecified
 //
 // enforceLanguages ("the language tag is compatible with the script"): every run gets enforceLang(initial, script).
